@@ -36,3 +36,11 @@ def helpers_stages(ctx):
 
 
 CHECKS["C08"] = helpers_stages
+
+
+def kvfault_stages(ctx):
+    cfg = "FSCore.fault.cfg" if ctx.tier == "quick" else "FSCore.few.cfg"
+    graph_stage(ctx, "kvfault", "MC_FSCore.tla", cfg, "fscore", ["kvfault=plain", "kvfault=txn"], ["--names", "a,b", "--depth", "3"], workers=8)
+
+
+CHECKS["C14"] = kvfault_stages
